@@ -27,6 +27,10 @@ def run(tier, seed, res, lean):
     fu = pmap(suite_sched.run_first_use, [(seed * 977 + i + 5, i, tier != 'quick') for i in range(16)])
     problems += [p for o in fu for p in o[1]]
     first_use_runs = sum(o[0]['first_use_runs'] for o in fu)
+    # two threads inside ONE compiled function (keyword and positional bindings), the second cutting in after every engine line
+    sd = pmap(suite_sched.run_steady, [(seed * 389 + i + 9, i, tier != 'quick') for i in range(16)])
+    problems += [p for o in sd for p in o[1]]
+    res.coverage['steady_line_sweep_runs'] = sum(o[0]['steady_runs'] for o in sd)
     for p in problems[:6]:
         kind = 'c11-lock' if 'without holding its lock' in p['msg'] else 'c11-value'
         res.violations.append(Violation(kind, p['msg'][:400], {'suite': 'S-SCHED', **p}))
